@@ -14,7 +14,7 @@ META = {
         "has a ticker rooted at to_uppercase, in both the DSL consumer and the JSON deserializer. R5 (index space): the tables "
         "shared by all securities (30-day claims, cost offsets) are keyed by a line's position in the whole list; an enumerate "
         "index used as such a key must be taken before any stage that drops elements (filter/skip/skip_while/rev). Does not decide that "
-        "report(all) is the combination of the per-security reports. R1 also: every quantity map of the matcher has a key type that tells securities apart (a String component or the global line index). R4 also: the consumer of every grammar rule with a ticker child obtains it through the ticker consumer."),
+        "report(all) is the combination of the per-security reports. R1 also: every quantity map of the matcher has a key type that tells securities apart (a String component or the global line index). R4 also: the consumer of every grammar rule with a ticker child obtains it through the ticker consumer. R6: the scans that find the end of a day compare dates only. R7: legs are grouped into disposals by the (date, ticker) key, not as contiguous runs (another security's legs between two legs of one disposal must not split it; shared with C06-R3/C04-R5)."),
     "trusted_base": ["str::to_uppercase; HashMap keyed lookup", "rustc MIR + resolution"],
     "engines": ["mirfacts", "rules", "posctl"],
 }
@@ -309,3 +309,15 @@ def run(ctx, rep):
     merge_guard(R, rep)
     uppercase(R, rep)
     dsl_ticker_consumers(ctx, R, rep)
+    # R7: a disposal is ALL legs of one (date, security), wherever another security's legs stand in between: grouped as contiguous
+    # runs, one security's figures depend on whether another security traded that day (shared with C06-R3 / C04-R5; seeded change C09-s7)
+    import rules.c06 as c06
+    from core import Report
+    r2 = Report("tmp")
+    c06.grouping(R, r2)
+    for o in r2.obligations:
+        if o["instance"].startswith("group:key"):
+            rep.ob("R7", o["instance"], o["ok"], o["detail"], o["site"], key="R7:" + o["instance"])
+    for v in r2.violations:
+        if v["instance"] == "GROUP":
+            rep.ob("R7", "group:function", False, v["detail"], v["site"], key="R7:group:function")
